@@ -63,9 +63,10 @@
 //	      reference, and there is no admission check (the node has no example value).
 //
 // KNOWN FINDING recognised structurally: K-C08-ref-type-or — on a `@t` example node
-// the rules {type: "@t" (the node's own reference), or: [bare type names]} are
-// accepted when `type` is written before `or` and rejected (501 Duplicate "type")
-// otherwise. For a set whose verdict depends on the order only the C08-order diff
+// a user-written `type` rule bypasses the duplicate check: the rules {type: "@t" (the
+// node's own reference), or: [bare type names]} are accepted when `type` is written
+// before `or` and rejected (501 Duplicate "type") otherwise, and a repeated `type`
+// rule ("@t" / "mixed") next to such an `or` is accepted although it appears twice. For a set whose verdict depends on the order only the C08-order diff
 // is emitted (the spec comparison needs a well-defined verdict).
 package c08
 
@@ -708,15 +709,22 @@ func permsFor(r *rand.Rand, n int) [][]int {
 	return out
 }
 
-// knownRefTypeOr: the structure of known finding K-C08-ref-type-or.
+// knownRefTypeOr: the structure of known finding K-C08-ref-type-or: a `@t` example
+// node whose rules are an `or` of bare type names, user-written `type` rules with the
+// value "@t" (the node's own reference) or "mixed", and optional / nullable — with
+// either a type: "@t" or a repeated type rule among them. (MixedValueNode.addTypeConstraint
+// lets a `type` rule replace the existing one instead of applying the duplicate check.)
 func knownRefTypeOr(rc rcase) string {
 	if rc.c.val != "ref" {
 		return ""
 	}
-	hasOr, hasType := false, false
+	hasOr, ownType, nType := false, false, 0
 	for _, r := range rc.rs {
 		switch r.name {
 		case "or":
+			if hasOr {
+				return ""
+			}
 			for _, a := range r.p.alts {
 				if a.ruleSet || strings.HasPrefix(a.typ, "@") {
 					return ""
@@ -724,19 +732,44 @@ func knownRefTypeOr(rc rcase) string {
 			}
 			hasOr = true
 		case "type":
-			if r.p.s != "@t" {
+			if r.p.s != "@t" && r.p.s != "mixed" {
 				return ""
 			}
-			hasType = true
+			if r.p.s == "@t" {
+				ownType = true
+			}
+			nType++
 		case "nullable", "optional":
 		default:
 			return ""
 		}
 	}
-	if hasOr && hasType {
+	if hasOr && (ownType || nType >= 2) {
 		return "K-C08-ref-type-or"
 	}
 	return ""
+}
+
+// knownStream: a small dedicated stream that exercises K-C08-ref-type-or in every run.
+func knownStream() []rcase {
+	var out []rcase
+	ty := func(s string) rl { return rl{"type", strParam(s)} }
+	seqs := [][]rl{{ty("@t")}, {ty("mixed"), ty("mixed")}, {ty("@t"), ty("@t")}, {ty("@t"), ty("mixed")}}
+	k := 0
+	for _, pos := range positions {
+		c := ctx{pos, "ref"}
+		ors := params("or", c)[:3]
+		for _, sq := range seqs {
+			rs := append([]rl{}, sq...)
+			rs = append(rs, rl{"or", ors[k%3]})
+			if k%2 == 1 {
+				rs = append(rs, rl{"nullable", boolParams()[k%4/2]})
+			}
+			out = append(out, rcase{c, rs})
+			k++
+		}
+	}
+	return out
 }
 
 type outcome struct {
@@ -807,7 +840,7 @@ func evalCase(r *rand.Rand, rc rcase) outcome {
 		if want {
 			w = "accept"
 		}
-		o.diffs = append(o.diffs, vh.Diff{Component: "C08-spec", Input: replay(rc.c, firstText), Impl: firstV.text,
+		o.diffs = append(o.diffs, vh.Diff{Component: "C08-spec", Class: knownRefTypeOr(rc), Input: replay(rc.c, firstText), Impl: firstV.text,
 			Model: "rulesOK(" + o.key + ") = " + w})
 	}
 	add("ctx_" + rc.c.pos)
@@ -915,6 +948,11 @@ func Run(args []string) {
 					}
 				}
 			}
+		}
+		for _, rc := range knownStream() {
+			rc := rc
+			jobs <- job{-1 - k, &rc}
+			k++
 		}
 		for i := 0; i < nRandom+nDup; i++ {
 			jobs <- job{i, nil}
